@@ -162,6 +162,10 @@ int main(int argc, char* const* argv)
     Item privkey;
     secp256k1_keypair keypair;
     bech32_hrp = ca.m.count('p') ? ca.m['p'] : DEFAULT_ADDR_PREFIX;
+    for (const char ch : bech32_hrp) {
+        // (the bech32 encoder asserts this)
+        if (ch >= 'A' && ch <= 'Z') abort("invalid address prefix %s: must be lower case", bech32_hrp.c_str());
+    }
 
     bool have_txs = false;
     if (ca.m.count('x') + ca.m.count('i') == 1) abort("provide either both --txin and --tx, or neither");
